@@ -12,6 +12,7 @@ import (
 
 func init() {
 	verifHarnesses["VerifC01Docs"] = VerifC01Docs
+	verifHarnesses["VerifC07ReadDuringWrite"] = VerifC07ReadDuringWrite
 }
 
 // docReplay replays the replica's own log in its total order (PUT, DEL and the
@@ -137,4 +138,93 @@ func VerifC01Docs() {
 	same(a, "C01 writer a shows the replayed documents")
 	same(b, "C01 writer b shows the replayed documents")
 	same(r, "C01 the fresh replica shows the replayed documents")
+}
+
+// VerifC07ReadDuringWrite: a reader (Query over all documents, then Get of the
+// key being written) runs at ANY visible operation of a local write (Put /
+// PutAll / Delete) or of the merge of a remote batch, until it blocks or
+// finishes.  Whatever it saw in that window, once the write has returned and
+// everything is quiet, Query and Get return exactly the documents of the
+// replayed log (a read in the window between the log append and the view update
+// must not leave anything stale behind).
+func VerifC07ReadDuringWrite() {
+	blocks := vstub.NewBlocks(nil)
+	ac := vstubodb.WriteAll()
+	a := vstubodb.Open(NewOrbitDBDocumentStore, "a", blocks, ac, false, nil)
+	b := vstubodb.Open(NewOrbitDBDocumentStore, "b", blocks, ac, false, nil)
+	if a == nil || b == nil {
+		return
+	}
+	ctx := context.Background()
+	ds := a.Store.(*orbitDBDocumentStore)
+	doc := func(k string, v byte) map[string]interface{} {
+		return map[string]interface{}{"_id": k, "v": string([]byte{v})}
+	}
+	all := func(interface{}) (bool, error) { return true, nil }
+	// initial state: one document, read once (so that anything cached is warm)
+	if _, err := ds.Put(ctx, doc("k1", vstub.NdByte("v0"))); err != nil {
+		vstub.Fail("C07 Put failed")
+		return
+	}
+	if _, err := ds.Query(ctx, all); err != nil {
+		vstub.Fail("C07 Query failed")
+		return
+	}
+	reads := 0
+	done := make(chan struct{})
+	reader := func() {
+		defer close(done)
+		_, _ = ds.Query(ctx, all)
+		_, _ = ds.Get(ctx, "k1", nil)
+		reads++
+	}
+	fired := false
+	vstub.FaultAtAnyStep(func() { fired = true; go reader() })
+	switch vstub.NdChoice("write", 4) {
+	case 0:
+		if _, err := ds.Put(ctx, doc("k1", vstub.NdByte("v1"))); err != nil {
+			vstub.Fail("C07 Put failed")
+		}
+		vstub.Cover("put")
+	case 1:
+		if _, err := ds.PutAll(ctx, []interface{}{doc("k1", vstub.NdByte("v1")), doc("k2", vstub.NdByte("v2"))}); err != nil {
+			vstub.Fail("C07 PutAll failed")
+		}
+		vstub.Cover("put-all")
+	case 2:
+		if _, err := ds.Delete(ctx, "k1"); err != nil {
+			vstub.Fail("C07 Delete of a present key failed")
+		}
+		vstub.Cover("delete")
+	case 3:
+		// a batch written by another replica is merged
+		bs := b.Store.(*orbitDBDocumentStore)
+		if _, err := bs.Put(ctx, doc("k2", vstub.NdByte("v2"))); err != nil {
+			vstub.Fail("C07 remote Put failed")
+		}
+		a.SyncFrom(b)
+		vstub.Cover("merge")
+	}
+	vstub.FaultDisarm()
+	if fired {
+		<-done
+		vstub.Cover("read-during-write")
+	}
+	vstub.WaitIdle()
+	ref := docReplay(a)
+	for round := 0; round < 2; round++ {
+		docs, err := ds.Query(ctx, all)
+		if err != nil {
+			vstub.Fail("C07 Query failed")
+			return
+		}
+		c07Check(docs, ref, func(string) bool { return true }, "after a write with a concurrent reader, Query")
+	}
+	got, err := ds.Get(ctx, "k1", nil)
+	if err != nil {
+		vstub.Fail("C07 Get failed")
+		return
+	}
+	_, present := ref.get("k1")
+	vstub.Assert((len(got) == 1) == present, "C07 after a write with a concurrent reader, Get returns the document of the replayed state")
 }
